@@ -337,6 +337,11 @@ pub fn call_specs(props: &[String], rng: &mut StdRng, n: usize, rich: bool) -> V
     v
 }
 
+/// claimed decompositions of the composed (large) cases, by case id
+pub static COMPOSED: Mutex<Vec<(String, Vec<Vec<usize>>, Vec<usize>)>> = Mutex::new(Vec::new());
+/// composed cases whose answers are longer than this are not recorded (TLC's cost is linear in the answer length)
+const BIG_ANSWER_CAP: usize = 700;
+
 pub fn run_case(case: &AdfCase, specs: &[CallSpec], disabled: &Mutex<Vec<String>>, prop: &str) -> Value {
     let text = case.text();
     let n = case.n();
@@ -389,6 +394,19 @@ pub fn run_case(case: &AdfCase, specs: &[CallSpec], disabled: &Mutex<Vec<String>
             }
             trees.push(rec);
         }
+    }
+    let comp = COMPOSED.lock().unwrap().iter().find(|c| c.0 == case.id).cloned();
+    if let Some((_, blocks, observers)) = comp {
+        let longest = calls.iter().map(|c| c["r"].as_array().map(|a| a.len()).unwrap_or(0)).max().unwrap_or(0);
+        if longest > BIG_ANSWER_CAP {
+            return json!({"kind": "skipped", "id": case.id, "why": "answer longer than the cap for composed cases", "longest": longest});
+        }
+        return json!({"kind": "adfbig", "id": case.id, "n": n, "prop": prop,
+            "blocks": blocks.iter().map(|b| b.iter().map(|x| x + 1).collect::<Vec<_>>()).collect::<Vec<_>>(),
+            "observers": observers.iter().map(|x| x + 1).collect::<Vec<_>>(),
+            "asts": case.asts.iter().map(|a| a.to_json_idx()).collect::<Vec<_>>(),
+            "labels": case.labels, "names": names.unwrap_or_else(|| case.labels.clone()),
+            "text": text, "calls": calls});
     }
     json!({"kind": "adf", "id": case.id, "n": n, "prop": prop, "trees": trees,
            "asts": case.asts.iter().map(|a| a.to_json_idx()).collect::<Vec<_>>(),
@@ -489,6 +507,19 @@ pub fn main(args: &[String]) {
                 _ => 6,
             };
             cases.push(rand_adf(&mut rng, n, format!("r{}_{}", n, k)));
+        }
+        // composed frameworks of 9-16 statements (C02: 8-11, its odometer visits 3^n candidates), judged by AdfCompose
+        if tier != "feat" {
+            let nbig = match (thorough, heavy) { (false, false) => 60, (false, true) => 30, (true, false) => 500, (true, true) => 200 };
+            let (lo, hi) = if props.iter().any(|p| p == "C02") { (8, 11) } else { (9, 16) };
+            // spread evenly over the trace (the validation is sharded by position)
+            let stride = (cases.len() / (nbig + 1)).max(1);
+            for k in 0..nbig {
+                let (case, blocks, observers) = composed_adf(&mut rng, format!("big{}", k), lo, hi);
+                COMPOSED.lock().unwrap().push((case.id.clone(), blocks, observers));
+                let at = ((k + 1) * stride + k).min(cases.len());
+                cases.insert(at, case);
+            }
         }
     }
     // C04: a wide differential pre-filter. Many more ADFs than TLC could judge are run through the two counting searches and
